@@ -105,6 +105,19 @@ fn measure_single<Q: QueueApi>(n: usize, pat: &str, seed: u64, reps: usize, meas
     meas.rec("get", n, delta(|| { let _ = q.get(&probe); }));
     meas.rec("get_priority", n, delta(|| { let _ = q.get_priority_k(&Key((n / 3) as u32)); }));
     meas.rec("get_mut", n, delta(|| { let _ = q.get_mut(&probe); }));
+    // operations naming an ABSENT item must not cost more than a failed hash lookup
+    {
+        let absent = Item::new(n as u32 + 77);
+        let ak = Key(n as u32 + 78);
+        meas.rec("get(absent)", n, delta(|| { let _ = q.get(&absent); }));
+        meas.rec("get_priority(absent)", n, delta(|| { let _ = q.get_priority_k(&ak); }));
+        meas.rec("get_mut(absent)", n, delta(|| { let _ = q.get_mut_k(&ak); }));
+        meas.rec("change_priority(absent)", n, delta(|| { let _ = q.change_priority_k(&ak, Prio::new(1)); }));
+        meas.rec("change_priority(absent)", n, delta(|| { let _ = q.change_priority(&absent, Prio::new(1)); }));
+        meas.rec("change_priority_by(absent)", n, delta(|| { let _ = q.change_priority_by_k(&ak, |p| p.ord = 2); }));
+        meas.rec("remove(absent)", n, delta(|| { let _ = q.remove_k(&ak); }));
+        meas.rec("remove(absent)", n, delta(|| { let _ = q.remove(&absent); }));
+    }
     for &e in Q::ends() {
         let nm = match (Q::KIND, e) {
             (Kind::Pq, _) => "peek",
@@ -319,7 +332,7 @@ pub fn mode_cost(a: &Args) -> i32 {
             evals += cnt;
             distinct += 1;
             let (bound, what) = if single_name(op) {
-                let zero = ["len", "is_empty", "capacity", "get", "get_priority", "get_mut", "peek", "peek_min", "peek_mut", "peek_min_mut"].contains(&op.as_str());
+                let zero = ["len", "is_empty", "capacity", "get", "get_priority", "get_mut", "peek", "peek_min", "peek_mut", "peek_min_mut"].contains(&op.as_str()) || op.ends_with("(absent)");
                 let one = ["peek_max", "peek_max_mut"].contains(&op.as_str());
                 if zero {
                     (0, "0")
@@ -386,6 +399,12 @@ fn probe<Q: QueueApi>(n: usize, op: &str, ops: usize, seed: u64) {
                 if let Some((i, _)) = q.pop(e) {
                     q.push(i, Prio::new(rng.range(-1_000_000, 1_000_000)));
                 }
+            }
+            "absent" => {
+                let k = Key(n as u32 + 5 + (j as u32 % 7));
+                let _ = q.change_priority_k(&k, Prio::new(1));
+                let _ = q.remove_k(&k);
+                let _ = q.change_priority_by_k(&k, |p| p.ord = 3);
             }
             "peeks" => {
                 for e in Q::ends() {
